@@ -51,8 +51,7 @@ section (creation order) after the op; the screen after interpreting everything 
 line-level terminal, starting below the `pre` lines; whether lexing the whole byte stream gives
 the command list back; `wf` / `anchored`: the deciders of the hypotheses of the theorems
 (`Props.C15.wf_decides`) on this history and on the screen the `pre` lines leave behind.
-Operations may carry indentation (`parseIOp`, model `SectionIndent`): `blank_safe` is the decider of the
-hypothesis of `screen_refines_indented`, `sim_state` / `sim_stream` whether the base model on the padded history
+Operations may carry indentation (`parseIOp`, model `SectionIndent`): `sim_state` / `sim_stream` whether the base model on the indented history
 (`flat`) gives the same sections / the same stream (`indent_simulates`).
 `c15.term {width, bytes}` -> the byte stream lexed and interpreted on an empty screen. -/
 def handle (m : String) (j : Json) : Option (R Json) :=
@@ -82,7 +81,6 @@ def handle (m : String) (j : Json) : Option (R Json) :=
         ("lex", .bool (lex (emit cmds) == some cmds)),
         ("run_agrees", .bool (fin.2 == cmds && some fin.1 == (tr.getLast?.map (·.2)).orElse (fun _ => some []))),
         ("wf", .bool (wfB w ops)),
-        ("blank_safe", .bool (blankSafe [] iops)),
         ("sim_state", .bool (base.1 == fin.1)),
         ("sim_stream", .bool (base.2 == fin.2)),
         ("anchored", .bool (anchoredB scr0)),
